@@ -45,9 +45,9 @@ let show cfg (s : state) =
     (int_of_n s.pl.bp_nb) (int_of_n s.pl.cp_av) (int_of_n s.pl.sp_nb) (b2i s.pl.sp_on);
   p " | jobs";
   List.iter (fun j ->
-    p " %d:%d:%d:%d:%d:%d:%s:%d:%d:%d:%d:%d" (int_of_n j.j_id) (if int_of_n j.j_size > 0 then int_of_n j.j_src else -1) (int_of_n j.j_size)
+    p " %d:%d:%d:%d:%d:%d:%s:%d:%d:%d:%d:%d:%d" (int_of_n j.j_id) (if int_of_n j.j_size > 0 then int_of_n j.j_src else -1) (int_of_n j.j_size)
       (if int_of_n j.j_psize > 0 then int_of_n j.j_pstart else -1) (int_of_n j.j_psize) (int_of_n j.j_consumed)
-      (if j.j_err then "E" else string_of_int (int_of_n j.j_csize)) (b2i j.j_dst) (b2i j.j_first) (b2i j.j_last) (b2i j.j_ckneed) (int_of_n j.j_flushed)) s.jobs;
+      (if j.j_err then "E" else string_of_int (int_of_n j.j_csize)) (b2i j.j_dst) (b2i j.j_first) (b2i j.j_last) (b2i j.j_ckneed) (int_of_n j.j_flushed) (b2i j.j_done)) s.jobs;
   p " | th";
   let cpc = match s.cl.c_pc with
     | CInUse j -> Printf.sprintf "MJ%d" (sl j)
